@@ -116,7 +116,21 @@ def mono_mul(m1, m2):
     return tuple(sorted(out, key=rk))
 
 
+WORK = {"left": None}  # monomial products still allowed in the current budgeted section (None: unlimited)
+
+
+def budget(n):
+    """limit the number of monomial products until the next call (None lifts the limit); exceeding it raises NFError -
+    a term that explodes cannot be decided, which is an analysis error, never a hang"""
+    WORK["left"] = n
+
+
 def mul_raw(a, b):
+    if WORK["left"] is not None:
+        WORK["left"] -= len(a) * len(b)
+        if WORK["left"] < 0:
+            WORK["left"] = None
+            raise NFError("normal form too large to decide (work budget exceeded)")
     r = {}
     for m1, c1 in a.items():
         for m2, c2 in b.items():
